@@ -451,9 +451,14 @@ Definition identity_info (c : cfg) (primary : pubkey) (i : identity) : info :=
        (describe_sig c (id_self i) (pk_created primary) ++
         (if fix38 c then [] else flat_map (fun s => describe_sig c s (pk_created primary)) (id_others i)))
        [].
+(* parsers.go:175 — the Created attribute is overwritten with the subkey's own creation time *)
+Definition subkey_sig_attrs (c : cfg) (s : subkey) : list (bytes * bytes) :=
+  map (fun nv => if fix39 c && bytes_eqb (fst nv) (bs "Created")
+                 then (fst nv, fmt_date_utc (pk_created (sk_key s))) else nv)
+      (describe_sig c (sk_sig s) (pk_created (sk_key s))).
 Definition subkey_info (c : cfg) (H : bytes -> bytes) (s : subkey) : info :=
   Info (bs "GPG/PGP subkey")
-       (describe_key H (sk_key s) ++ describe_sig c (sk_sig s) (pk_created (sk_key s)))
+       (describe_key H (sk_key s) ++ subkey_sig_attrs c s)
        [].
 
 Definition entity_info (c : cfg) (H : bytes -> bytes) (private : bool) (e : entity) : info :=
